@@ -54,6 +54,12 @@ def _grid(shape, rng, cap, horizon, opts):
     names.append(("pure", 0))
     axes.append(opts.get("ucancel", [-1]))
     names.append(("ucancel", 0))
+    axes.append(opts.get("preshut", [False]))
+    names.append(("preshut", 0))
+    # clean-ups that wait for a sibling's cancellation: between the first two entry jobs of
+    # every scheduler that has two ("pair": one way, "mutual": both ways)
+    axes.append(opts.get("cwait", [None]))
+    names.append(("cwait", 0))
     total = 1
     for ax in axes:
         total *= len(ax)
@@ -63,6 +69,8 @@ def _grid(shape, rng, cap, horizon, opts):
               ("crit", "forever", "sdur", "cdur", "scdur", "dur", "win", "tmo", "stmo")}
         pure = False
         ucancel = -1
+        preshut = False
+        cwait = [0] * n
         for (name, i), val in zip(names, choice):
             if name == "jf":
                 kw["crit"][i], kw["forever"][i] = val
@@ -70,6 +78,16 @@ def _grid(shape, rng, cap, horizon, opts):
                 pure = val
             elif name == "ucancel":
                 ucancel = val
+            elif name == "preshut":
+                preshut = val
+            elif name == "cwait":
+                if val:
+                    for s in scheds:
+                        entry = [j for j in jobs if parent[j] == s + 1 and not req[j]]
+                        if len(entry) >= 2:
+                            cwait[entry[0]] = entry[1] + 1
+                            if val == "mutual":
+                                cwait[entry[1]] = entry[0] + 1
             else:
                 kw[name][i] = val
         for i in range(n):
@@ -79,7 +97,8 @@ def _grid(shape, rng, cap, horizon, opts):
                 if kw[key][i] is None:
                     kw[key][i] = dflt
         out = ["any" if kind[i] == "job" else "ok" for i in range(n)]
-        return mkcfg(kind, parent, req, out=out, pure=pure, horizon=horizon, ucancel=ucancel, **kw)
+        return mkcfg(kind, parent, req, out=out, pure=pure, horizon=horizon, ucancel=ucancel,
+                     preshut=preshut, cwait=cwait, **kw)
 
     if total <= cap:
         for choice in itertools.product(*axes):
@@ -138,7 +157,8 @@ def family(name, tier, seed):
                  stmo=[0, 1, -1],
                  jobflags=[(False, False), (True, False), (False, True)],
                  schedflags=[(False, False), (True, False), (False, True), (True, True)],
-                 pure=[False, True], ucancel=[-1, -1, 1, 2]))
+                 pure=[False, True], ucancel=[-1, -1, 1, 2], preshut=[False, False, False, True],
+                 cwait=[None, None, "pair"]))
         desc = "6 nested shapes (depth <= 3) x flags x windows x timeouts x handler/clean-up durations"
     elif name == "shutdown":
         shapes = [tree(t) for t in [
@@ -150,7 +170,8 @@ def family(name, tier, seed):
             dict(win=[0], tmo=[-1, 1], cdur=[0, 1], sdur=[0, 1, 2, -1], scdur=[0, 1],
                  stmo=[0, 1, 2, -1],
                  jobflags=[(False, False), (True, False)],
-                 schedflags=[(False, False), (True, False), (False, True)], ucancel=[-1, -1, -1, 1]))
+                 schedflags=[(False, False), (True, False), (False, True)], ucancel=[-1, -1, -1, 1],
+                 preshut=[False, False, False, True]))
         desc = "3 nested shapes x every handler duration against every shutdown_timeout in the tree"
     elif name == "never":
         # never-ending jobs (dur = -1) under timeouts / as forever jobs
@@ -159,7 +180,8 @@ def family(name, tier, seed):
         add(shapes, 400 if quick else 8000, 3,
             dict(win=[0, 1, 2], tmo=[-1, 0, 1, 2], cdur=[0, 1], dur=[-2, -1],
                  jobflags=[(False, False), (True, False), (False, True)],
-                 schedflags=[(False, False), (True, False), (False, True)]))
+                 schedflags=[(False, False), (True, False), (False, True)],
+                 cwait=[None, None, "pair", "mutual"]))
         desc = "shapes with never-ending jobs x timeouts x windows (admissible and not)"
     else:
         raise KeyError(name)
